@@ -315,6 +315,33 @@ func worldGroups(w *World) {
 		c.CloseProxy("other")
 		syncCtl(c)
 	}
+	// prelude: the group's endpoint is held by an ordinary proxy when the first members try to create the group. They
+	// are refused and must leave no trace: once the occupant is gone the group is created by whoever comes next and
+	// serves from its live members only
+	if !port0 && w.KnobBool("endpoint_occupied_at_first", 35) {
+		w.Probe("groups.endpoint_occupied_at_first")
+		occ := clients[0]
+		f := mkReq("occupant", "", 0)
+		delete(f, "group")
+		delete(f, "group_key")
+		delete(f, "http_user")
+		delete(f, "http_pwd")
+		hist("%s.register(occupant, no group)", occ.Name)
+		if rr, got := occ.register(f); got && mstr(rr, "error") == "" {
+			for j := 0; j < w.KnobPick("occupied.refusals", 1, 2, 3); j++ {
+				c := clients[r.Intn(len(clients))]
+				name := "m" + fmt.Sprint(r.Intn(5))
+				nextCreds = cred{}
+				if join(c, name, gkey, 0) {
+					viol("join", "group-created-on-occupied-endpoint", "group created on an endpoint that an ordinary proxy owns; history: %v", history)
+					return
+				}
+			}
+			hist("%s.close(occupant)", occ.Name)
+			occ.CloseProxy("occupant")
+			syncCtl(occ)
+		}
+	}
 	names := []string{"m0", "m1", "m2", "m3", "m4"}
 	nops := w.KnobPick("nops", 6, 12, 24)
 	focusRace := w.KnobBool("focus_race", 50)
